@@ -4,11 +4,11 @@
 // EXECUTABLE std-only shims of http/url, and is run on every request of a stated finite space against the documented rule.
 #![allow(dead_code, unused_imports, unused_variables, unused_macros)]
 // tracing macros (shim: logging has no bearing on the property)
-macro_rules! trace { ($($t:tt)*) => {}; }
-macro_rules! debug { ($($t:tt)*) => {}; }
-macro_rules! info { ($($t:tt)*) => {}; }
-macro_rules! warn { ($($t:tt)*) => {}; }
-macro_rules! error { ($($t:tt)*) => {}; }
+macro_rules! trace { ($($t:tt)*) => { () }; }
+macro_rules! debug { ($($t:tt)*) => { () }; }
+macro_rules! info { ($($t:tt)*) => { () }; }
+macro_rules! warn { ($($t:tt)*) => { () }; }
+macro_rules! error { ($($t:tt)*) => { () }; }
 use std::borrow::Cow;
 
 pub struct HeaderName(&'static str);
